@@ -119,6 +119,8 @@ op = st.one_of(
     st.tuples(st.just("close_oldest")),           # overlapping (not nested) lifetimes: the scope opened first ends first
     st.tuples(st.just("with_ok"), units_spec()),
     st.tuples(st.just("with_raise"), units_spec()),
+    # a registration cut short after j entries by something that is not an Exception (an interrupt)
+    st.tuples(st.just("open_abort"), units_spec(), st.integers(1, 3)),
     st.tuples(st.just("dip"), dip_text()),
     st.tuples(st.just("dip"), dip_text()),
 )
@@ -189,6 +191,23 @@ def _custom_type():
             return False
     HarnessUnitType.second = HarnessUnitType2
     return HarnessUnitType
+
+
+class _Abort(BaseException):
+    """stands for KeyboardInterrupt / SystemExit arriving while units are being registered"""
+
+
+class _Aborting(dict):
+    def __init__(self, d, after):
+        super().__init__(d)
+        self._after = after
+
+    def items(self):
+        for i, kv in enumerate(super().items()):
+            if i >= self._after:
+                raise _Abort()
+            yield kv
+        raise _Abort()
 
 
 def _build(ents, typ):
@@ -339,6 +358,24 @@ def _check(case, v):
 
     for step, o in enumerate(case["ops"]):
         name = o[0]
+        if name == "open_abort":
+            ents = o[1]
+            ok, rows = _expect(ents, table_rows())
+            if not ok:
+                continue
+            try:
+                env = UnitEnvironment(_Aborting(_build(ents, typ), o[2]))
+            except _Abort:
+                nt = True
+                v.label("registration_interrupted_after_success")
+                if invariant(step, f"registration of {[e['sym'] for e in ents]} interrupted after {min(o[2], len(ents))} unit(s)"):
+                    return
+                continue
+            except Exception as ex:
+                return v.fail("registration-refused", f"step {step}: UnitEnvironment({[e['sym'] for e in ents]}) raised {ex!r}")
+            env.close()
+            v.label("interrupt_not_reached")
+            continue
         if name in ("open", "with_ok", "with_raise"):
             ents = o[1]
             if name == "open" and len(stack) >= 4:
